@@ -25,16 +25,20 @@ PeerClasses ==
     "p-propacc-unknown", "p-ledgerprop-again" }
 Classes == StrangerClasses \cup PeerClasses
 (* life-cycle points of H's channel with P *)
-Points == { "nochannel", "open", "inflight", "handling", "proposing", "subopen", "subsettled" }
+Points == { "nochannel", "open", "inflight", "handling", "proposing", "subopen", "subsettled", "hub" }
 (* "proposing": H has proposed a second ledger channel to P and waits for the response (P knows the proposal id);
    "subopen": a sub-channel proposed by P is open and funded from the channel;
-   "subsettled": that sub-channel was finalised and withdrawn into the channel by both parties.
+   "subsettled": that sub-channel was finalised and withdrawn into the channel by both parties;
+   "hub": H also has a channel with X and is the hub of a funded virtual channel between P and X, both controlled by
+          the adversary: valid settlement proposals for it and valid funding proposals for a second virtual channel
+          arrive alone (the matching one never comes), in time, or only after the hub's matching time-out ("-late").
    Classes that only exist at these points: *)
 Special ==
   [ proposing  |-> { "p-propacc-match-sub", "p-propacc-match-virtual", "p-propacc-match-ledger", "p-propacc-match-ledger-nopart",
                      "p-proprej-match", "s-propacc-match-sub", "s-proprej-match" },
     subopen    |-> { "p-update-withdraw-early", "p-update-fund-again", "p-subupdate-valid", "p-subupdate-badsig" },
-    subsettled |-> { "p-update-refund-sub", "p-update-withdraw-again", "p-subupdate-settled" } ]
+    subsettled |-> { "p-update-refund-sub", "p-update-withdraw-again", "p-subupdate-settled" },
+    hub        |-> { "p-vsettle-lone", "x-vsettle", "x-vsettle-late", "p-vfund2-lone", "x-vfund2", "x-vfund2-late" } ]
 SpecialOf(pt) == IF pt \in DOMAIN Special THEN Special[pt] ELSE {}
 (* classes that need the channel with P *)
 NeedsChannel(c) == c \in PeerClasses \ {"p-propacc-unknown", "p-ledgerprop-again"}
